@@ -104,6 +104,17 @@ func VerifC09Retention() {
 		t := rt.MkTime(mtimes[i])
 		must(os.Chtimes(path, t, t))
 	}
+	// other files a transaction log directory can contain at sweep time
+	strays := []string{"0000000000000000-0000000000000000.ltx.tmp", ltx.FormatFilename(ltx.TXID(k+1), ltx.TXID(k+1)) + ".tmp",
+		ltx.FormatFilename(ltx.TXID(k), ltx.TXID(k)) + ".7.tmp", "zzz-garbage"}
+	for _, name := range strays {
+		if rt.Choose("stray.present", 2) == 1 {
+			path := filepath.Join(db.LTXDir(), name)
+			must(os.WriteFile(path, []byte("t"), 0o666))
+			t := rt.MkTime(rt.I64("stray.mtime"))
+			must(os.Chtimes(path, t, t))
+		}
+	}
 	cut := rt.I64("cutoff")
 	rt.Assume(cut >= 0 && cut < 1<<61)
 	err := db.EnforceRetention(ctx, rt.MkTime(cut))
